@@ -33,6 +33,17 @@ double __CPROVER_uninterpreted_log10(double);
 double __CPROVER_uninterpreted_floor(double);
 double __CPROVER_uninterpreted_ceil(double);
 
+double __CPROVER_uninterpreted_lngamma_abs(double, double);
+static inline double bx_lngamma_abs(double g, double y) { return __CPROVER_uninterpreted_lngamma_abs(g, y); }
+#ifdef BX_UF
+/* relational mode: Re ln Gamma(g+iy) from GSL is the same uninterpreted function as the reference's alog(cabs(cgamma(.)));
+   GSL is assumed to succeed (status 0) */
+int bx_ext_gsl_sf_lngamma_complex_e(double zr, double zi, bx_gsl_sf_result *lnr, bx_gsl_sf_result *arg)
+{
+  lnr->val = __CPROVER_uninterpreted_lngamma_abs(zr, zi);
+  return 0;
+}
+#endif
 #ifdef BX_UF
 /* relational mode: pure uninterpreted functions (equal arguments give equal results), no axioms needed */
 double bx_log(double x) { return __CPROVER_uninterpreted_log(x); }
